@@ -688,6 +688,8 @@ class AperCheck(Check):
         reported = 0
         for i, (c, o) in enumerate(zip(cases, obs)):
             msg = st.direct_check(c, o)
+            if not msg and isinstance(o, dict) and "input_after" in o:
+                msg = "the decoder wrote into its input buffer: it now reads %s" % o["input_after"][:120]
             rf = getattr(st, "retained_field", None)       # see vlib/prop.py: results handed out earlier must not change
             if not msg and rf and i > 0 and isinstance(o, dict) and "prev_now" in o and isinstance(obs[i - 1], dict) and rf in obs[i - 1]:
                 if o["prev_now"] != obs[i - 1][rf]:
